@@ -28,8 +28,9 @@ SOLVER_TOL = 1e-9
 # ----------------------------------------------------------------------------- network specs
 def gen_network(rng, quick=True, force=None):
     """A replayable spec (plain dict).  Layout: reservoir R --(pump P or pipe)--> J0, a ring J0..Jn-1 with a chord,
-    1-2 tanks hanging on ring nodes, a dead-end junction D behind pipe PD (isolation episodes), features switched on
-    randomly."""
+    1-2 tanks hanging on ring nodes, a dead-end junction D behind pipe PD (isolation episodes), a low zone behind a
+    PRV/PSV/FCV/TCV with setting / status controls, a second source behind a check-valve pipe, pump speed pattern and
+    base_speed controls; features switched on randomly."""
     force = force or {}
     f = lambda k, p: force.get(k, rng.random() < p)
     n = rng.randint(3, 6)
@@ -114,7 +115,41 @@ def gen_network(rng, quick=True, force=None):
     if f("isolation", 0.35):
         a = rng.randint(1, steps - 2) * hyd + rng.choice([0, 0, rng.randint(1, hyd - 1)])
         spec["isolation"] = {"close": a, "open": min(duration, a + rng.randint(1, 4) * hyd + rng.choice([0, rng.randint(1, hyd - 1)]))}
+    # a low zone Z0-Z1 behind a control valve V; its setting / status are changed by time controls
+    spec["valve"] = None
+    if f("valve", 0.45):
+        vt = force.get("valve_type") or rng.choice(["PRV", "PRV", "PSV", "FCV", "TCV"])
+        rset = {"PRV": lambda: round(rng.uniform(8, 30), 2), "PSV": lambda: round(rng.uniform(15, 40), 2),
+                "FCV": lambda: round(rng.uniform(0.001, 0.012), 5), "TCV": lambda: round(rng.uniform(2, 400), 1)}[vt]
+        ev = []
+        for _ in range(rng.randint(1, 3)):
+            if rng.random() < 0.75:
+                ev.append({"at": tval(), "what": "setting", "value": rset()})
+            else:
+                ev.append({"at": tval(), "what": "status", "value": rng.choice([0, 1, 2])})  # Closed / Open / Active
+        spec["valve"] = {"type": vt, "setting": rset(), "at": rng.randrange(n), "events": sorted(ev, key=lambda e: e["at"]),
+                         "demand": [round(rng.uniform(0.001, 0.006), 5) for _ in range(2)], "elev": round(rng.uniform(-5, 2), 2)}
+    # a second, weaker source behind a check-valve pipe, and check valves on the chord
+    spec["cv"] = None
+    if f("cv", 0.35):
+        spec["cv"] = {"at": rng.randrange(n), "head": round(spec["res_head"] + rng.uniform(-12, 25), 2), "chord_cv": rng.random() < 0.5}
+    # pump speed (speed pattern, time controls on base_speed): WNTRSimulator raises NotImplementedError("Pump speeds other
+    # than 1.0 are not yet supported") for head pumps, so this is only generated when forced (never by the streams)
+    spec["speed"] = None
+    if spec["pump"] and force.get("speed"):
+        spec["speed"] = {"pattern": rng.choice([None, [round(rng.uniform(0.8, 1.15), 3) for _ in range(rng.randint(2, 5))]]),
+                         "events": [{"at": tval(), "value": round(rng.uniform(0.7, 1.2), 3)} for _ in range(rng.randint(1, 3))]}
     return spec
+
+
+def event_times(spec):
+    """instants at which a valve setting / valve status / pump speed control fires"""
+    out = []
+    if spec.get("valve"):
+        out += [e["at"] for e in spec["valve"]["events"]]
+    if spec.get("speed"):
+        out += [e["at"] for e in spec["speed"]["events"]]
+    return sorted(out)
 
 
 def build_net(wntr, spec):
@@ -131,15 +166,30 @@ def build_net(wntr, spec):
         wn.add_curve("pc", "HEAD", [(0.0, 45.0), (0.03, 35.0), (0.06, 15.0)])
         wn.add_junction("S", base_demand=0.0, elevation=0.0)
         wn.add_pipe("L0", "R", "S", length=50.0, diameter=0.4, roughness=110)
-        wn.add_pump("P", "S", "J0", pump_type="HEAD", pump_parameter="pc")
+        if spec.get("speed") and spec["speed"]["pattern"]:
+            wn.add_pattern("spd", spec["speed"]["pattern"])
+            wn.add_pump("P", "S", "J0", pump_type="HEAD", pump_parameter="pc", speed=1.0, pattern="spd")
+        else:
+            wn.add_pump("P", "S", "J0", pump_type="HEAD", pump_parameter="pc")
         wn.add_pipe("LB", "R", "J0", length=900.0, diameter=0.15, roughness=100)  # a by-pass keeps J0 fed when P is off
     else:
         wn.add_pipe("L0", "R", "J0", length=spec["pipes_l"][0], diameter=0.35, roughness=110)
     for i in range(1, n):
         wn.add_pipe("L%d" % i, "J%d" % (i - 1), "J%d" % i, length=spec["pipes_l"][i], diameter=spec["pipes_d"][i], roughness=100)
     wn.add_pipe("LC", "J%d" % (n - 1), "J0", length=spec["pipes_l"][n], diameter=spec["pipes_d"][n], roughness=100)
+    cv = spec.get("cv")
     if n >= 4:
-        wn.add_pipe("LX", "J1", "J%d" % (n - 1), length=spec["pipes_l"][n + 1], diameter=spec["pipes_d"][n + 1], roughness=100)
+        wn.add_pipe("LX", "J1", "J%d" % (n - 1), length=spec["pipes_l"][n + 1], diameter=spec["pipes_d"][n + 1], roughness=100,
+                    check_valve=bool(cv and cv["chord_cv"]))
+    if cv:
+        wn.add_reservoir("R2", base_head=cv["head"])
+        wn.add_pipe("LCV", "R2", "J%d" % cv["at"], length=400.0, diameter=0.2, roughness=100, check_valve=True)
+    vs = spec.get("valve")
+    if vs:
+        wn.add_junction("Z0", base_demand=vs["demand"][0], elevation=vs["elev"], demand_pattern="pat")
+        wn.add_junction("Z1", base_demand=vs["demand"][1], elevation=vs["elev"] - 1.0, demand_pattern="pat")
+        wn.add_valve("V", "J%d" % vs["at"], "Z0", diameter=0.25, valve_type=vs["type"], minor_loss=0.0, initial_setting=vs["setting"])
+        wn.add_pipe("LZ", "Z0", "Z1", length=200.0, diameter=0.2, roughness=100)
     for k, t in enumerate(spec["tanks"]):
         wn.add_tank("T%d" % k, elevation=t["elev"], init_level=t["init"], min_level=t["min"], max_level=t["max"], diameter=t["diam"])
         wn.add_pipe("LT%d" % k, "J%d" % t["at"], "T%d" % k, length=60.0, diameter=t["pipe_d"], roughness=110)
@@ -182,6 +232,15 @@ def build_net(wntr, spec):
             wn.add_control(name, Rule(cond, [ControlAction(link, "status", LS(c["then"]))], els, priority=c["prio"]))
     for lk in spec["leaks"]:
         wn.get_node("J%d" % lk["node"]).add_leak(wn, area=lk["area"], start_time=lk["start"], end_time=lk["end"])
+    if vs:
+        v = wn.get_link("V")
+        for j, e in enumerate(vs["events"]):
+            act = ControlAction(v, "setting", e["value"]) if e["what"] == "setting" else ControlAction(v, "status", LS(e["value"]))
+            wn.add_control("valve_ev%d" % j, Control(SimTimeCondition(wn, "=", e["at"]), act))
+    if spec.get("speed"):
+        pmp = wn.get_link("P")
+        for j, e in enumerate(spec["speed"]["events"]):
+            wn.add_control("speed_ev%d" % j, Control(SimTimeCondition(wn, "=", e["at"]), ControlAction(pmp, "base_speed", e["value"])))
     if spec["isolation"]:
         pd_ = wn.get_link("PD")
         wn.add_control("iso_close", Control(SimTimeCondition(wn, "=", spec["isolation"]["close"]), ControlAction(pd_, "status", LS.Closed)))
@@ -399,7 +458,7 @@ class C10(Check):
     # ------------------------------------------------------------------ (b) the property on real networks
     def _run_net_case(self, ctx, wntr, spec, pauses, pk, failures, tag="random"):
         sig = (tag, json.dumps(spec, sort_keys=True), tuple(pauses), pk)
-        nontrivial = bool(spec["controls"] or spec["leaks"] or spec["tanks"] or spec["isolation"])
+        nontrivial = bool(spec["controls"] or spec["leaks"] or spec["tanks"] or spec["isolation"] or spec.get("valve") or spec.get("speed"))
         ctx.case(sig, nontrivial)
         for c in spec["controls"]:
             ctx.count("net-ctl:" + c["kind"])
@@ -413,6 +472,18 @@ class C10(Check):
             if any(spec["isolation"]["close"] <= p < spec["isolation"]["open"] for p in pauses):
                 ctx.count("net:paused-while-isolated")
         ctx.count("net:%s" % ("PDD" if spec["pdd"] else "DD"))
+        if spec.get("valve"):
+            ctx.count("net:valve:" + spec["valve"]["type"])
+            for e in spec["valve"]["events"]:
+                ctx.count("net:valve-control:" + e["what"])
+                if any(p >= e["at"] for p in pauses):
+                    ctx.count("net:paused-after-valve-%s-control" % e["what"])
+        if spec.get("cv"):
+            ctx.count("net:check-valves")
+        if spec.get("speed"):
+            ctx.count("net:pump-speed-controls" + ("+pattern" if spec["speed"]["pattern"] else ""))
+            if any(p >= e["at"] for e in spec["speed"]["events"] for p in pauses):
+                ctx.count("net:paused-after-speed-control")
         wn = build_net(wntr, spec)
         full, _, err = run_parts(wntr, wn, [spec["duration"]], False)
         if err:
@@ -429,7 +500,7 @@ class C10(Check):
             key, msg = classify(spec, probs, pauses)
             failures.append(Failure(key, msg, rp))
             return False
-        ctx.sample({"network": {k: spec[k] for k in ("n", "hyd", "duration", "pump", "pdd")}, "controls": [c["kind"] for c in spec["controls"]],
+        ctx.sample({"network": {k: spec.get(k) for k in ("n", "hyd", "duration", "pump", "pdd", "valve", "speed", "cv")}, "controls": [c["kind"] for c in spec["controls"]],
                     "pauses": pauses, "pickle": pk, "rows": len(full[0]["node.head"].index)}, cap=4)
         return True
 
@@ -444,8 +515,20 @@ class C10(Check):
                 force = {"tanks": rng.choice([1, 2]), "level_controls": True}
             elif i % 5 == 3:
                 force = {"rules": True}
+            if i % 3 == 0:
+                force = dict(force, valve=True, valve_type=["PRV", "PSV", "FCV", "TCV", "PRV"][(i // 3) % 5])
+            if i % 6 == 2:
+                force = dict(force, cv=True)
             spec = gen_network(rng, ctx.quick, force)
             pauses = self._pauses(rng, spec["hyd"], spec["duration"])
+            evs = event_times(spec)
+            if evs and rng.random() < 0.8:
+                # pause at the first hydraulic step at / after a setting, status or speed control fired
+                h = spec["hyd"]
+                e = rng.choice(evs)
+                p = -(-e // h) * h + rng.choice([0, 0, h])
+                if p + h <= spec["duration"]:
+                    pauses = sorted(set(pauses + [p]))[:3]
             if spec["isolation"] and rng.random() < 0.7:
                 # pause while the dead end is cut off
                 iso = spec["isolation"]
